@@ -55,6 +55,17 @@ CLAIMS = {
          "_SELECT KEY / UNIQUE directives naming unknown columns through sql.NewTable and sqlcrud.generateTable. Sweeps: typescript, dart (incl. Generate), SQL validators, gounions, randdata on every analysis.Type skeleton "
          "of depth<=1 (quick) / 2 (thorough) over the nine node kinds. NOT decided: the full statement over all well-typed packages (createType on arbitrary go/types graphs, unbounded recursion, packages.Load).",
          "DESIGN.md section 4 (C18)", ""),
+ "C05": ("Decides the statement-shape clause. newColumnsCode on tables of 1..3 (4) columns with symbolic exported names and guard flags: the parallel Go/SQL lists are aligned (equal to lists built from one ordered column list), "
+         "placeholders are $1..$n, guards excluded, NoPrimary lists = the same lists without the primary column, columnsCount = n. sqlcrud.Generate + generator/sql.Generate on every table shape of a structural catalogue "
+         "(with/without primary key named Id or ID, any subset of {string, foreign key, guard, bool} columns, optional UNIQUE and select key): every Query/QueryRow/Exec call of the generated Go text is parsed, its $k placeholders "
+         "are exactly 1..m with m = number of Go arguments, and it names only the generated table and its columns. The second harness runs on concrete names (its assertions fold; it is an exhaustive enumeration of shapes executed by the engine and natively). "
+         "NOT decided: execution against a database, histories, scan order vs RETURNING order beyond the shared column list.",
+         "DESIGN.md section 4 (C05)", ""),
+ "C08": ("Decides the mapping clauses on generateTable/createStmt/typeConstraint/enumTuple/newType/NewTable/isTableID/newForeignKey/generateForeignConstraint/generateQuardConstraint. Columns: every field type of a 36-entry catalogue covering the "
+         "documented Go-to-SQL mapping, symbolic field names (exported or not), optional guard: one column per exported-or-guard field in order, documented SQL type, NOT NULL unless nullable wrapper / variable-length array, enum CHECK listing exactly the values, "
+         "fixed-array length CHECK, jsonb CHECK calling its validator, id => serial PRIMARY KEY, snake-case-plural table name (incl. an acronym). Foreign keys: ID type names symbolic (1..4(5) bytes), int64 or not, optional foreign/on-delete tags: exactly one "
+         "constraint to the table named by the ID type (affix 'id' in any case) or the tag, ON DELETE as tagged, none otherwise, tag on non-int64 refused. Guards: default + equality CHECK with the same symbolic value. NOT decided: composite declarations across packages, ordering of the whole script.",
+         "DESIGN.md section 4 (C08)", ""),
  "C16": ("Decides the rewriting clauses with a symbolic regular-expression matcher (a priority-ordered backtracker over the real regexp/syntax program of each pattern, byte-class tests decided by the solver). "
          "TableNameReplacer.Replace against a loop-written tokenizer on symbolic text around/inside table names (prefix names included): whole words equal to a table name are replaced, nothing else; "
          "ReplaceEnums: #[E.A] inside symbolic text becomes the SQL literal (digits as written, strings single-quoted) optionally followed by an SQL comment, surroundings untouched; sql.newCustomQuery: $name$ placeholders "
